@@ -12,13 +12,14 @@ from vp import gen, probe, propmodel, refmodels as rm
 from vp import defaults
 from vp import reuse
 from vp import forms as argforms
+from vp import corners
 
 RULE = ('seeded generator: complex pupil fields 2..20 per side, integers N_r, N_c >= input size (N_r != N_c allowed), '
         'du = lambda*z/(dx*N) per axis, anisotropic dx, oversample 1..3, nested centred windows k1<k2<...<=N, target powers; '
         'distinct = distinct (shape, N, os, dx, data hash) descriptors; non-trivial = more than one non-zero input sample.')
 ASSUMPTIONS = ['1/alpha is an integer number of samples on each axis (commensurate sampling), as the property states']
 PLAN = {'quick': {'gen': 8}, 'thorough': {'gen': 16, 'tests': 1, 'docs': 1}}
-REQUIRED_BUCKETS = ['defaults', 'reuse', 'forms', 'N:rect', 'N:square', 'dx:aniso', 'dx:iso', 'os=1', 'os=2', 'os=3', 'N:odd', 'N:even', 'fft', 'dft',
+REQUIRED_BUCKETS = ['defaults', 'corners', 'reuse', 'forms', 'N:rect', 'N:square', 'dx:aniso', 'dx:iso', 'os=1', 'os=2', 'os=3', 'N:odd', 'N:even', 'fft', 'dft',
                     'nested', 'normalize_power', 'normalize_power:small-int', 'normalize_power:narrow-float', 'amp:extreme-magnitude', 'fft:any-period', 'fft:period%os!=0', 'amp:signed', 'nested:mask-values']
 REQUIRED_ANCHORS = ['probe:propagate_dft', 'probe:propagate_fft', 'anchor:_fft2', 'anchor:normalize_power',
                     'anchor:dft2']
@@ -100,6 +101,7 @@ def workload(ctx, lentil):
     defaults.run(ctx, lentil, 'C05', 'dft:full-period')
     reuse.run(ctx, lentil, 'C05', 'dft:full-period')
     argforms.run(ctx, lentil, 'C05', 'dft:full-period')
+    corners.run(ctx, lentil, 'C05', 'dft:full-period')
     rng = ctx.rng
     n = ctx.count(90, 700)
     hi = 20 if ctx.tier == 'quick' else 40
